@@ -675,12 +675,15 @@ Proof.
   split; [reflexivity|]. split; [constructor|]. split; [constructor|]. exact tail_ok_nil.
 Qed.
 
+Lemma wire_of_spec s : wire_of s = wire (mw s).
+Proof. unfold wire_of, wire. rewrite <- rev_alt. reflexivity. Qed.
+
 Lemma SInv_final c s ds dn : SInv c s ds dn ->
   exists fs, rfc_parse (wire_of s) = Some fs /\ rfc_valid (srv c) false fs = true /\ messages fs = Some dn.
 Proof.
   intros ((Hh & He & Hk & Hw & Hok & Hsh & Htl) & _ & _).
   exists (map (abs_fd (srv c)) ds).
-  change (wire_of s) with (wire (mw s)). rewrite Hw.
+  rewrite wire_of_spec, Hw.
   split; [apply rfc_parse_enc; exact Hok|].
   destruct (Htl []) as [A B]. rewrite app_nil_r in A, B.
   split.
